@@ -91,6 +91,7 @@ fn wire_traits(rep: &mut Report, w: &WMsg) {
 // bytes that are neither a delimiter the IANA registry knows (0x01-0x0a) nor in the range the registry assigns value
 // syntaxes from (0x10-0x7f): these must be rejected. (0x06-0x0a are registered delimiters the pinned library happens not
 // to support; 0x4b-0x7f are unassigned value tags a library may reject or hand out as opaque values: both unjudged.)
+const MAYBE_TAGS: [u8; 9] = [0x06, 0x07, 0x08, 0x09, 0x0a, 0x4b, 0x4c, 0x60, 0x7f];
 const BAD_TAGS: [u8; 12] = [0x00, 0x0b, 0x0c, 0x0d, 0x0e, 0x0f, 0x80, 0x81, 0xa5, 0xc3, 0xfe, 0xff];
 
 pub(crate) fn c04_judge(rep: &mut Report, label: &str, bytes: Vec<u8>, expected: &Model, replay: &[String]) {
@@ -202,6 +203,38 @@ pub(crate) fn c04_bad_tags(rep: &mut Report, label: &str, bytes: &[u8], rng: &mu
             );
         }
     }
+    // bytes a library may legitimately come to accept (delimiters registered after RFC 8010, unassigned value tags): not
+    // demanded rejected, but never *skipped* - an accepted result must differ from what the parser makes of the message
+    // with that byte, or with that whole element, deleted.
+    let (pos, end) = toks[rng.range(1, toks.len() - 1)];
+    let maybe = *rng.pick(&MAYBE_TAGS);
+    let mut v = bytes.to_vec();
+    v[pos] = maybe;
+    rep.eval();
+    rep.count("may_be_accepted_tag_insertions", 1);
+    let data = Arc::new(v.clone());
+    match sync_parse(&data, Plan::full()).0 {
+        Outcome::Err(_) => rep.count("may_be_accepted_tag_rejected", 1),
+        Outcome::Ok(got) => {
+            rep.count("may_be_accepted_tag_accepted", 1);
+            let mut without_byte = v.clone();
+            without_byte.remove(pos);
+            let mut without_element = v.clone();
+            without_element.drain(pos..end);
+            for (what, alt) in [("that byte", without_byte), ("that element", without_element)] {
+                if let (Outcome::Ok(other), _) = sync_parse(&Arc::new(alt), Plan::full()) {
+                    if mirror::diff(&other, &got).is_none() {
+                        rep.violation(
+                            "C04:bad-tag-skipped",
+                            format!("{label}: byte {maybe:#04x} at tag position {pos} was accepted and the result equals that of the message without {what}: skipped, not rejected; input={}", hex_short(&data, 500)),
+                            replay.to_vec(),
+                        );
+                    }
+                }
+            }
+        }
+        o => rep.violation(format!("C04:bad-tag:{}", o.class()), format!("{label}: byte {maybe:#04x} at tag position {pos} gave {}; input={}", o.short(), hex_short(&data, 500)), replay.to_vec()),
+    }
 }
 
 pub fn run_c04(args: &Args, tier: &str, seed: u64) -> Report {
@@ -296,11 +329,11 @@ pub fn run_c04(args: &Args, tier: &str, seed: u64) -> Report {
         rep
     });
     let mut rep = merge_all("C04", tier, seed, parts);
-    rep.rule = format!("G2: wire-level message trees from the RFC 8010 grammar (groups x attributes x 1..n values x nested collections x every tag 0x10-0x4a with a syntactically valid body, non-UTF-8 text, repeated/empty groups, messages not starting with the operation group, mixed sets, multi-valued members, sets of collections, boundary lengths) alternating with G1 messages in reference encoding, plus the C01 shapes; plus every token sequence of length <= {tok_k} over the 16-token alphabet that the reference decoder accepts. Oracle: parse result via the public API == reference interpretation (interp) of the tree; every 8th tree also with 3 bytes that are neither registered delimiters (0x01-0x0a) nor in the value-tag range 0x10-0x7f (0x00, 0x0b-0x0f, 0x80-0xff) substituted at tag positions, demanding exactly InvalidTag(b). Non-trivial = a multi-valued attribute, a collection or >= 3 groups; distinct by hash of the input bytes.");
+    rep.rule = format!("G2: wire-level message trees from the RFC 8010 grammar (groups x attributes x 1..n values x nested collections x every tag 0x10-0x4a with a syntactically valid body, non-UTF-8 text, repeated/empty groups, messages not starting with the operation group, mixed sets, multi-valued members, sets of collections, boundary lengths) alternating with G1 messages in reference encoding, plus the C01 shapes; plus every token sequence of length <= {tok_k} over the 16-token alphabet that the reference decoder accepts. Oracle: parse result via the public API == reference interpretation (interp) of the tree; every 8th tree also with 3 bytes that are neither registered delimiters (0x01-0x0a) nor in the value-tag range 0x10-0x7f (0x00, 0x0b-0x0f, 0x80-0xff) substituted at tag positions, demanding exactly InvalidTag(b), and with one byte a library may come to accept (0x06-0x0a, 0x4b-0x7f) substituted, demanding that it is rejected or represented, never skipped (an accepted result differs from the parse without that byte / that element). Non-trivial = a multi-valued attribute, a collection or >= 3 groups; distinct by hash of the input bytes.");
     if only.is_none() && only_tok.is_none() {
         let tags = rep.sets.get("value_tags").map(|s| s.len()).unwrap_or(0);
         rep.require(tags >= 57, &format!("every value tag 0x10-0x4a except the two structural ones exercised (saw {tags}/57)"));
-        for k in ["mixed_sets", "multi_valued_members", "sets_of_collections", "repeated_groups", "empty_groups", "non_utf8_text_bodies", "not_starting_with_operation_group", "nested_collections", "bad_tag_insertions"] {
+        for k in ["mixed_sets", "multi_valued_members", "sets_of_collections", "repeated_groups", "empty_groups", "non_utf8_text_bodies", "not_starting_with_operation_group", "nested_collections", "bad_tag_insertions", "may_be_accepted_tag_insertions"] {
             rep.require(rep.counters.get(k).copied().unwrap_or(0) >= 20, &format!("{k} exercised"));
         }
     }
